@@ -79,9 +79,27 @@ const char *rtosc_match_path(const char *pattern,
         if(*pattern == ':' && !*msg)
             return *path_end = msg, pattern;
         else if(*pattern == '{') {
-            pattern = rtosc_match_options(pattern, &msg);
-            if(!pattern)
-                return NULL;
+            //An alternative can be a prefix of a later one ("{a,ab}"), so try
+            //every alternative that fits together with the rest of the pattern
+            const char *rest = pattern;
+            while(*rest && *rest != '}') rest++;
+            if(*rest == '}')
+                rest++;
+            const char *alt = pattern+1;
+            while(1) {
+                const char *m = msg;
+                while(*alt && *alt != ',' && *alt != '}' && *alt == *m)
+                    ++alt, ++m;
+                if(!*alt || *alt == ',' || *alt == '}') {
+                    const char *res = rtosc_match_path(rest, m, path_end);
+                    if(res)
+                        return res;
+                }
+                while(*alt && *alt != ',' && *alt != '}') alt++;
+                if(*alt != ',')
+                    return NULL;
+                alt++;
+            }
         } else if(*pattern == '*') {
             //advance message and pattern to '/' or ':' and '\0'
             while(*pattern && *pattern != '/' && *pattern != ':')
